@@ -16,7 +16,7 @@
 
 from fractions import Fraction
 from collections import OrderedDict
-from typing import List, Optional, FrozenSet, Union, cast
+from typing import List, Optional, FrozenSet, Set, Union, cast
 import unified_planning as up
 import unified_planning.environment
 from unified_planning.exceptions import UPUnreachableCodeError
@@ -24,6 +24,22 @@ import unified_planning.model.walkers as walkers
 from unified_planning.model.fnode import FNode
 from unified_planning.model.types import _UserType
 import unified_planning.model.operators as op
+
+
+def _bound_variables(expression: FNode) -> Set["up.model.variable.Variable"]:
+    """Returns the variables bound by the quantifiers appearing in the given expression."""
+    res: Set["up.model.variable.Variable"] = set()
+    seen: Set[FNode] = set()
+    stack = [expression]
+    while stack:
+        e = stack.pop()
+        if e in seen:
+            continue
+        seen.add(e)
+        if e.is_exists() or e.is_forall():
+            res.update(e.variables())
+        stack.extend(e.args)
+    return res
 
 
 class Simplifier(walkers.dag.DagWalker):
@@ -180,8 +196,9 @@ class Simplifier(walkers.dag.DagWalker):
 
     def walk_exists(self, expression: FNode, args: List[FNode]) -> FNode:
         assert len(args) == 1
+        free_vars_oracle = self.environment.free_vars_oracle
         free_vars: FrozenSet["up.model.variable.Variable"] = (
-            self.environment.free_vars_oracle.get_free_variables(args[0])
+            free_vars_oracle.get_free_variables(args[0])
         )
         vars = set(var for var in expression.variables() if var in free_vars)
         # Here we check if the arg is in the form:
@@ -202,22 +219,33 @@ class Simplifier(walkers.dag.DagWalker):
                             or variable.variable() not in vars
                         ):
                             variable, value = value, variable
-                        value_free_vars = (
-                            self.environment.free_vars_oracle.get_free_variables(
-                                args[0]
-                            )
-                        )
                         if (
-                            variable.is_variable_exp()
-                            and variable.variable() in vars
-                            and variable not in value_free_vars
+                            not variable.is_variable_exp()
+                            or variable.variable() not in vars
+                        ):
+                            continue
+                        value_free_vars = free_vars_oracle.get_free_variables(value)
+                        rest = self.manager.And(
+                            *(a for j, a in enumerate(new_arg.args) if i != j)
+                        )
+                        # l_i can be replaced by x only if x does not mention l_i, x is
+                        # always a legal value for l_i and no free variable of x is
+                        # captured by a quantifier of phi
+                        if (
+                            variable.variable() not in value_free_vars
+                            and variable.type.is_compatible(value.type)
+                            and value_free_vars.isdisjoint(_bound_variables(rest))
                         ):
                             check_equality_simplification = True
-                            new_arg = self.manager.And(
-                                *(a for j, a in enumerate(new_arg.args) if i != j)
-                            )
-                            new_arg = new_arg.substitute({variable: value})
+                            new_arg = rest.substitute({variable: value})
+                            # the substitution can enable further simplifications
+                            new_arg = Simplifier(
+                                self.environment, self.problem
+                            ).simplify(new_arg)
                             vars.remove(variable.variable())
+                            # and can make other variables of this Exists disappear
+                            free_vars = free_vars_oracle.get_free_variables(new_arg)
+                            vars = set(var for var in vars if var in free_vars)
                             break
         if vars:
             return self.manager.Exists(new_arg, *vars)
@@ -403,7 +431,7 @@ class Simplifier(walkers.dag.DagWalker):
             if right.constant_value() < 0:
                 value = -right.constant_value()
                 fnode_constant_values = self._number_to_fnode(value)
-                return self.manager.Plus(left, fnode_constant_values)
+                return self.walk_plus(expression, [left, fnode_constant_values])
             else:
                 return self.manager.Minus(left, right)
         else:
@@ -447,7 +475,7 @@ class Simplifier(walkers.dag.DagWalker):
         value: Union[Fraction, int, float] = 0
         if left.is_int_constant() and right.is_int_constant():
             if (left.constant_value() % right.constant_value()) == 0:
-                value = int(left.constant_value() / right.constant_value())
+                value = left.constant_value() // right.constant_value()
             else:
                 value = Fraction(left.constant_value(), right.constant_value())
         elif (left.is_int_constant() or left.is_real_constant()) and (
